@@ -277,7 +277,7 @@ def shard(args):
 
 
 def run(tier, seed):
-    shards = [(f, fr, tier) for f, (k, frs) in servers.FRONTS.items() for fr in frs]
+    shards = [(f, fr, tier) for f, (k, frs) in servers.FRONTS.items() for fr in frs if fr != 'tls']     # TLS framing carries no unit id
     acc = par.run_shards(shard, shards)
     acc.n['traces_validated_against_impl'] = acc.n.get('evaluations', 0)
     return dict(acc=acc, level=LEVEL,
